@@ -10,6 +10,7 @@ import (
 	"go/token"
 	"os"
 	"path/filepath"
+	"regexp"
 	"strconv"
 	"strings"
 
@@ -17,6 +18,8 @@ import (
 
 	"verifharness/proto"
 )
+
+var tmplArgRe = regexp.MustCompile(`@[A-Za-z0-9_]+`)
 
 type tok struct {
 	T token.Token
@@ -137,19 +140,39 @@ func (x *Exec) checkFile(rec *StepRecord, pi int, g *proto.GenScript, o genOutco
 	want.WriteString("package " + p.Name + "\n")
 	hdr := want.Len()
 	ip := m.ImportPath(pi)
+	resolve := func(ref string) (string, bool) {
+		i := strings.LastIndex(ref, ".")
+		path, name := ref[:i], ref[i+1:]
+		if path == ip {
+			return name, true
+		}
+		if alias, ok := imports[path]; ok {
+			return alias + "." + name, true
+		}
+		x.violate("C01", "F4", "referenced-package-not-imported", fmt.Sprintf("%s: %s", rel, path), nil)
+		return "", false
+	}
 	for _, part := range o.Parts {
 		switch {
-		case part.Ref != "":
-			i := strings.LastIndex(part.Ref, ".")
-			path, name := part.Ref[:i], part.Ref[i+1:]
-			if path == ip {
-				want.WriteString(name)
-			} else if alias, ok := imports[path]; ok {
-				want.WriteString(alias + "." + name)
-			} else {
-				x.violate("C01", "F4", "referenced-package-not-imported", fmt.Sprintf("%s: %s", rel, path), nil)
+		case part.Tmpl != "":
+			text, ok := part.Tmpl, true
+			text = tmplArgRe.ReplaceAllStringFunc(text, func(ph string) string {
+				r, rok := resolve(part.TArgs[ph[1:]])
+				ok = ok && rok
+				return r
+			})
+			if !ok {
 				return
 			}
+			want.WriteString(strings.TrimLeft(text, "\n")) // snippet.T drops leading newlines of its format
+		case part.DocRef != "":
+			want.WriteString("\n// DOC " + strings.Join(m.DocLinesOf(part.DocRef), " | ") + "\n")
+		case part.Ref != "":
+			r, ok := resolve(part.Ref)
+			if !ok {
+				return
+			}
+			want.WriteString(r)
 		default:
 			want.WriteString(part.Text)
 		}
